@@ -145,7 +145,8 @@ PLAN.update({
                   'ps_cb_quick'],
         'thorough': ['ps_imm_quick', 'ps_delay_quick', 'ps_delay_disc_quick',
                      'ps_cb_quick', 'ps_delay_rooms_quick',
-                     'ps_imm_cb_quick'],
+                     'ps_imm_cb_quick', 'ps_cb3', 'ps_delay_chan3',
+                     'ps_delay3', 'ps_imm3'],
     },
     'C15': {
         'fam': 'pubsub',
